@@ -341,6 +341,7 @@ class Model(object):
         self.faulted = False
         self.nested_done = 0
         self.depth = 0
+        self.unsafe = False      # the formula contains something that may legitimately fail at run time
         for spec in sc['slots']:
             ls = {}
             for ev in KINDS.values():
@@ -432,18 +433,23 @@ class Model(object):
             v = self.ev(s, t[1])
             if type(v) is int:
                 return -v
+            self.unsafe = True
             return UNKNOWN
         if k == 'arr':
             return [self.ev(s, a) for a in t[2]]
         if k == 'chain':
             for x in t[2]:
                 self.ev(s, x)
+            if any(op != '&' for op in t[1]):
+                self.unsafe = True
             return UNKNOWN
         if k == 'bin':
             a = self.ev(s, t[2])
             b = self.ev(s, t[3])
             if type(a) is int and type(b) is int and t[1] in '+-*':
                 return a + b if t[1] == '+' else (a - b if t[1] == '-' else a * b)
+            if t[1] != '&' and not (type(a) is int and type(b) is int):
+                self.unsafe = True
             return UNKNOWN
         if k == 'cell':
             e = expect_cell(t[1])
@@ -460,6 +466,8 @@ class Model(object):
         if k == 'call':
             args = [None if a is None else self.ev(s, a) for a in t[3]]
             name = t[1]
+            if sum(1 for a in t[3] if a is None) > 1:
+                self.unsafe = True      # the grammar accepts one empty argument slot per call, not every combination of several
             if name in self.fns[s]:
                 n = self._inv(s, 'f:' + name)
                 script = self.fns[s][name]
@@ -472,6 +480,7 @@ class Model(object):
                     value = V.dec(act['v'])
             else:
                 value = UNKNOWN
+                self.unsafe = True          # a built-in may reject its arguments
             return self.emit(s, 'callFunction', ['call', name, args], value)
         raise AssertionError(k)
 
@@ -711,6 +720,14 @@ def execute(sc, stats):
                                    'real': _show(canon.canon(ret.get('result')))}})
     elif err is None and m_abort is not None and not inner_failed and not model.faulted:
         stats['skipped_model_abort_but_real_ok'] += 1
+    elif (err is not None and not model.unsafe and not model.faulted and m_abort is None and not inner_failed
+          and model.nested_done == 0):
+        # only references, recording functions, '&', integer arithmetic, arrays and parentheses, nothing raises, every
+        # name is bound: such a formula cannot fail, so its references were not all evaluated exactly once
+        stats['judged_must_not_fail'] += 1
+        vio.append({'invariant': 'E1_delivery_log', 'sig': 'E1:failed',
+                    'detail': {'formula': formula, 'problem': 'a formula that cannot fail ended with %s: not every reference was evaluated' % err,
+                               'events_expected': sum(len(l) for l in model.logs), 'events_delivered': nev}})
     else:
         # the evaluation failed (fault injected, unbound name, or a value error): at most once, in order
         stats['judged_subsequence'] += 1
